@@ -9,3 +9,10 @@ import "github.com/TheCacophonyProject/go-cptv/cptvframe"
 func (d *motionDetector) VerifThresh() uint16               { return d.tempThresh }
 func (d *motionDetector) VerifBackground() *cptvframe.Frame { return d.background }
 func VerifFFCPeriodNs() int64                               { return int64(ffcPeriod) }
+
+// VerifDetectorRestarted: the processor's detector has been reset and has not seen a frame since
+// (a camera reset must always restart detection, whatever happened to the recording in progress)
+func (mp *MotionProcessor) VerifDetectorRestarted() bool {
+	d := mp.motionDetector
+	return d.backgroundFrames == 0 && d.count == 0
+}
